@@ -497,6 +497,23 @@ class BitGen:
         self.seed_seq = seed_seq
 
 
+class SeedToken(int):
+    """an integer drawn from a generator over a huge range and used as a seed: kept opaque, remembers where it came from"""
+    def __new__(cls, stream_key):
+        o = int.__new__(cls, 0)
+        o.stream_key = stream_key
+        return o
+
+    def __int__(self):
+        return self
+
+    def __index__(self):
+        return self
+
+    def __repr__(self):
+        return "SeedToken(%r)" % (self.stream_key,)
+
+
 class SymRng:
     """numpy.random.Generator stand-in: a stream of symbols with a position counter.
     uniform/random cells are ExpCell(v) with v <= 0 fresh per stream position (u = exp(v) in (0,1];
@@ -571,11 +588,20 @@ class SymRng:
         return symnp.SymArray(symnp._obj(cells), symnp._I8)
 
     def integers(self, low, high=None, size=None, dtype=None, endpoint=False):
-        """draws WITH replacement from [low, high): independent symbolic integers (repeats possible)"""
+        """draws WITH replacement from [low, high): independent symbolic integers (repeats possible).  Over a range of 2**32 or
+        more the draws are opaque seed tokens (used to seed further generators, whose streams then derive from this one)"""
         if high is None:
             low, high = 0, low
         lo, hi = int(low), int(high) + (1 if endpoint else 0)
         k = 1 if size is None else int(size)
+        if hi - lo >= 2 ** 32:
+            toks = []
+            for j in range(k):
+                self.w.event("draw", self.key, self.pos)
+                toks.append(SeedToken(self.key + ("seeded", self.pos)))
+                self.pos += 1
+            self.draws.append(("integers", hi - lo, k, toks))
+            return toks[0] if size is None else symnp.SymArray(symnp._obj(toks), symnp._I8)
         z3 = core.z3
         cells = []
         for j in range(k):
@@ -613,7 +639,13 @@ class SymRng:
 def numpy_random_module(world):
     mod = types.ModuleType("numpy.random")
     mod.Generator = SymRng
-    mod.PCG64 = lambda seed_seq=None: BitGen(seed_seq if isinstance(seed_seq, SeedSeq) else SeedSeq(world, ("fresh-entropy",)))
+    def PCG64(seed_seq=None):
+        if isinstance(seed_seq, SeedSeq):
+            return BitGen(seed_seq)
+        if isinstance(seed_seq, SeedToken):
+            return BitGen(SeedSeq(world, seed_seq.stream_key))       # seeded by a draw of another generator: derived stream
+        return BitGen(SeedSeq(world, ("fresh-entropy",)))
+    mod.PCG64 = PCG64
 
     def default_rng(seed=None):
         if seed is None:
